@@ -54,6 +54,12 @@ Fixpoint vscale (k : Q) (a : val) : val :=
   | VTup l => VTup (map (vscale k) l)
   | _ => type_error
   end.
+(* NumPy broadcasting of a scalar over a 1-D array *)
+Definition vsub_b (a b : val) : val :=
+  match a, b with
+  | VTup l, VQ y => VTup (map (fun x => vsub x (VQ y)) l)
+  | _, _ => vsub a b
+  end.
 Definition vmul (a b : val) : val :=
   match a, b with
   | VQ x, VQ y => VQ (x * y)
@@ -114,6 +120,13 @@ Definition vdot (a b : val) : val :=
   | _, _ => type_error
   end.
 
+(* ndarray.shape of a 1-D (tuple of numbers) or 2-D (tuple of rows) array *)
+Definition vshape (a : val) : val :=
+  match a with
+  | VTup ((VTup r) :: rest) => VTup [VQ (inject_Z (Z.of_nat (S (List.length rest)))); VQ (inject_Z (Z.of_nat (List.length r)))]
+  | VTup l => VTup [VQ (inject_Z (Z.of_nat (List.length l)))]
+  | _ => type_error
+  end.
 (* a[-1], a[:, -1] *)
 Definition vidx_last (a : val) : val := match a with VTup l => last l type_error | _ => type_error end.
 Definition vcol_last (a : val) : val :=
